@@ -1,7 +1,8 @@
 (* C13 — Every request gets exactly one terminal outcome with the matching payload.
    Pinned theorem statements; the proofs are in Proofs.v. *)
 From Coq Require Import List NArith Bool.
-From V.C13 Require Import Model Proofs Flush.
+From V.C04 Require Model.
+From V.C13 Require Import Model Proofs Flush Inbound Tables TwoNode TwoNodeProofs.
 Import ListNotations.
 Open Scope N_scope.
 
@@ -314,3 +315,205 @@ Example demo_discharged :
                (run_steps (mkCfg None 4 16 5000 false) (init_pst, init_env) (firstn 5 demo)))
     = [(0, 0, 5000); (1, 1, 5000)].
 Proof. split; [|vm_compute; reflexivity]. vm_compute. repeat split. intros x []. Qed.
+
+(* ======================================================================================
+   Extension round: the inbound side and the user's handle, the tables extracted from the source,
+   and two nodes composed over the C04 substream contract.
+   ====================================================================================== *)
+
+(* Matching payload, response direction, at the responder: a response frame that reached the remote
+   end of inbound carrier c is the payload the user gave to send_response(_with_feedback) for an
+   inbound request id irid that the handle still knew (target = Some irid), and irid is the id under
+   which a RequestReceived read from that very carrier was handed to the user. *)
+Theorem C13_response_wire :
+  forall (cf : cfg) (evs : list ev) (c l t : N),
+    let steps := run_steps cf (init_pst, init_env) evs in
+    In (OWireR c l t) (outs_of steps) ->
+    exists irid,
+      (exists e o p lq tq, In (e, o, Some c) steps /\ In (OReq irid p lq tq) o) /\
+      (exists k fb o, In (EURespond k l t fb, o, Some irid) steps).
+Proof. exact response_wire. Qed.
+Print Assumptions C13_response_wire.
+
+(* RequestResponseHandle::pending_responses: of all the send_response / send_response_with_feedback /
+   reject_request calls the user makes for an inbound request id, at most one finds the oneshot
+   sender (the others are no-ops): the ids for which a call took effect are pairwise distinct. *)
+Theorem C13_respond_once :
+  forall (cf : cfg) (evs : list ev), NoDup (answer_ids (run_steps cf (init_pst, init_env) evs)).
+Proof. exact respond_once. Qed.
+Print Assumptions C13_respond_once.
+
+(* No timeout on the inbound side (what the code does): nothing but a stimulus on its own carrier —
+   a request frame, the end of the stream, a read error — takes a reader out of
+   pending_inbound_requests; not the clock, not the ConnectionClosed of its peer, not the user. *)
+Theorem C13_reader_leaves_only_on_carrier_event :
+  forall (cf : cfg) (s : pst) (en : env) (e : ev) (rd : rdr),
+    let r := step cf (s, en) e in
+    In rd (rdrs s) -> ~ In rd (rdrs (fst (fst (fst r)))) ->
+    carrier_read e = true /\ snd r = Some (r_chan rd).
+Proof. exact reader_leaves_only_on_carrier_event. Qed.
+Print Assumptions C13_reader_leaves_only_on_carrier_event.
+
+(* ... hence, with the bound configured and every slot taken by a substream whose remote side stays
+   silent, the slots stay taken whatever else happens (any amount of time, connections closing,
+   user calls, inbound substreams from any peer), and no RequestReceived is produced at all: the
+   bound is respected, and silent remotes starve every other peer for as long as their substreams
+   stay open. *)
+Theorem C13_silent_remotes_pin_slots :
+  forall (cf : cfg) (m : N) (evs : list ev) (s : pst) (en : env),
+    max_inb cf = Some m -> m <= N.of_nat (length (rdrs s)) ->
+    let steps := run_steps cf (s, en) evs in
+    forallb (fun x => negb (touches (map r_chan (rdrs s)) x)) steps = true ->
+    rdrs (fst (fst (run cf (s, en) evs))) = rdrs s /\
+    forall x, In x steps -> has_req (snd (fst x)) = false.
+Proof. exact silent_remotes_pin_slots. Qed.
+Print Assumptions C13_silent_remotes_pin_slots.
+
+Theorem C13_full_refuses :
+  forall (cf : cfg) (m : N) (s : pst) (p c neg : N),
+    max_inb cf = Some m -> m <= inbound_load s -> h_inopen cf s p c neg = (s, []).
+Proof. exact full_refuses. Qed.
+Print Assumptions C13_full_refuses.
+
+(* The shared request-id allocator wraps at 2^64: the implementation's id of the model's i-th id is
+   (r0 + i) mod 2^64; the renaming is injective below 2^64 allocations and has period 2^64. *)
+Theorem C13_alloc_wrap :
+  (forall r0 i j, i < USIZE -> j < USIZE -> impl_id r0 i = impl_id r0 j -> i = j) /\
+  (forall r0 i, impl_id r0 (i + USIZE) = impl_id r0 i).
+Proof. split; [exact alloc_wrap_injective|exact alloc_wrap_period]. Qed.
+Print Assumptions C13_alloc_wrap.
+
+(* The tables extracted from handle.rs / mod.rs / config.rs / error.rs on every check are the ones
+   the model was written for; every error the source can produce has exactly one code of the model,
+   codes are distinct; the SubstreamOpenFailure kinds of the harness map as on_substream_open_failure
+   and RejectReason::from map them. *)
+Theorem C13_tables_in_sync :
+  (V.gen.C13Tables.enums = x_enums /\ V.gen.C13Tables.inner_to_outer = x_inner_to_outer /\
+   V.gen.C13Tables.poll_next = x_poll_next /\ V.gen.C13Tables.reject_from = x_reject_from /\
+   V.gen.C13Tables.handle_fns = x_handle_fns /\ V.gen.C13Tables.select_arms = x_select_arms /\
+   V.gen.C13Tables.select_biased = x_select_biased /\ V.gen.C13Tables.service_arms = x_service_arms /\
+   V.gen.C13Tables.command_arms = x_command_arms /\ V.gen.C13Tables.open_failure = x_open_failure /\
+   V.gen.C13Tables.outbound_future = x_outbound_future /\ V.gen.C13Tables.inbound_future = x_inbound_future /\
+   V.gen.C13Tables.inbound_bound = x_inbound_bound /\ V.gen.C13Tables.send_request = x_send_request /\
+   V.gen.C13Tables.codec = x_codec /\ V.gen.C13Tables.channels = x_channels /\
+   V.gen.C13Tables.builder_defaults = x_builder_defaults /\ V.gen.C13Tables.setters = x_setters /\
+   V.gen.C13Tables.allocator = x_allocator /\ V.gen.C13Tables.build = x_build) /\
+  map fst dial_codes = variants_of IMMEDIATE_DIAL_ERROR /\
+  nodupN (map snd error_codes ++ map (fun x => E_DIAL_IMM (snd x)) dial_codes) = true /\
+  forallb (fun x => N.eqb (openfail_code (fst (fst x))) (snd x)) open_failure_kinds = true.
+Proof.
+  split; [repeat split; reflexivity|]. repeat split; reflexivity.
+Qed.
+Print Assumptions C13_tables_in_sync.
+
+(* The carrier contract, from C04_reader_roundtrip: whatever prefix of the frame of payload (l, t)
+   has arrived (a fault at any byte offset), under whatever fragmentation, stalls, end of stream or
+   read errors — if the substream reader returns a frame at all, it is exactly that payload. *)
+Theorem C13_carrier_contract :
+  forall (cf : cfg) (l t : N) (cut : nat) (script : list V.C04.Model.rdev) (m : list N),
+    deliver (codec_of cf) (firstn cut (frame_for cf l t)) script = RxFrame m -> m = bytes_of l t.
+Proof. exact deliver_contract. Qed.
+Print Assumptions C13_carrier_contract.
+
+(* Each node of the two-node system is a run of the single-node model: every theorem above holds
+   for either node (instances below: at most one, exactly one, the request on the wire). *)
+Theorem C13_two_node_projection :
+  forall (cfA cfB : cfg) (ms : list mv) (x : bool),
+    let s := run2 (sys0 cfA cfB) ms in
+    log x s = run_steps (if x then cfB else cfA) (init_pst, init_env) (evs_of (log x s)).
+Proof. exact node_projection. Qed.
+Print Assumptions C13_two_node_projection.
+
+Theorem C13_two_node_at_most_one :
+  forall (cfA cfB : cfg) (ms : list mv) (x : bool) (r : N),
+    (terms r (outs x (run2 (sys0 cfA cfB) ms)) <= 1)%nat.
+Proof. exact two_node_at_most_one. Qed.
+Print Assumptions C13_two_node_at_most_one.
+
+Theorem C13_two_node_exactly_one :
+  forall (cfA cfB : cfg) (ms : list mv) (x : bool) (r : N),
+    let s := run2 (sys0 cfA cfB) ms in
+    settled (fst (n_st (nd x s))) -> In (OSent r) (outs x s) ->
+    terms r (outs x s) = 1%nat \/ In r (cancel_reqs (evs_of (log x s))).
+Proof. exact two_node_exactly_one_settled. Qed.
+Print Assumptions C13_two_node_exactly_one.
+
+Theorem C13_two_node_responder_once :
+  forall (cfA cfB : cfg) (ms : list mv) (x : bool), NoDup (req_chans (log x (run2 (sys0 cfA cfB) ms))).
+Proof. exact two_node_responder_once. Qed.
+Print Assumptions C13_two_node_responder_once.
+
+(* The responder sees what the requester sent: a RequestReceived handed to the user at node b from
+   a linked carrier carries, byte for byte, the request frame the other node wrote on the other end
+   of that substream. *)
+Theorem C13_two_node_request_identical :
+  forall (cfA cfB : cfg) (ms : list mv) (b : bool) e o (cr irid p lq tq : N),
+    let s := run2 (sys0 cfA cfB) ms in
+    In (e, o, Some cr) (log b s) -> In (OReq irid p lq tq) o -> linked s b cr = true ->
+    exists k l t, In k (lks s) /\ k_a k = negb b /\ k_cr k = cr /\
+                  In (OWire (k_cq k) l t) (outs (negb b) s) /\ bytes_of lq tq = bytes_of l t.
+Proof. exact two_node_request_identical. Qed.
+Print Assumptions C13_two_node_request_identical.
+
+(* THE COMPOSITION THEOREM (requester model || responder model over the C04 carrier contract).
+   For every history of the two-node system — any stimuli of either node's own environment and
+   user, substreams opened and linked in any order, bytes delivered in either direction cut at any
+   offset and fragmented in any way, either event loop ending at any point: a response delivered at
+   node a for request id rid whose substream (carrier c, the one carrier ever handed to rid) is
+   linked to the other node is byte-identical to the payload (l', t') that the OTHER node's user
+   supplied with send_response for the inbound request id irid; irid is the request that the other
+   node read from the other end of that very substream; and what its user was handed as that request
+   is byte-identical to the request frame node a wrote for rid (which C13_two_node_request_wire ties
+   to the payload given to send_request). *)
+Theorem C13_two_node_response_identical :
+  forall (cfA cfB : cfg) (ms : list mv) (a : bool) (rid len tag c : N),
+    let s := run2 (sys0 cfA cfB) ms in
+    In (OResp rid len tag) (outs a s) -> In (OBind c rid) (outs a s) -> linked s a c = true ->
+    exists k irid l' t' p lq tq l t,
+      In k (lks s) /\ k_a k = a /\ k_cq k = c /\
+      supplied (log (negb a) s) irid l' t' /\ bytes_of len tag = bytes_of l' t' /\
+      origin (log (negb a) s) irid (k_cr k) /\
+      In (OReq irid p lq tq) (outs (negb a) s) /\
+      In (OWire c l t) (outs a s) /\ bytes_of lq tq = bytes_of l t.
+Proof. exact two_node_response_identical. Qed.
+Print Assumptions C13_two_node_response_identical.
+
+Theorem C13_two_node_request_wire :
+  forall (cfA cfB : cfg) (ms : list mv) (a : bool) pre p d (len tag : N) fb o tg post (rid c l t : N),
+    let s := run2 (sys0 cfA cfB) ms in
+    log a s = pre ++ (ESend p d len tag fb, o, tg) :: post ->
+    In (OSent rid) o -> In (OBind c rid) (outs a s) -> In (OWire c l t) (outs a s) ->
+    (l, t) = (len, tag) \/ exists n fl ft, fb = Some (n, fl, ft) /\ (l, t) = (fl, ft).
+Proof. exact two_node_request_wire. Qed.
+Print Assumptions C13_two_node_request_wire.
+
+(* Non-vacuity of the composition: node A sends (3, 10) to node B; the substream is opened and
+   linked; the request bytes arrive in three fragments with a stall; B's user answers (5, 77) with
+   feedback; the response bytes arrive after a stall: A's user gets exactly (5, 77) for request 0.
+   Second history: the request bytes are cut after 3 of 4 bytes — B sees the stream end, A gets
+   Rejected(SubstreamClosed). *)
+Definition demo2 : list mv :=
+  [MLoc false (EEstablished 0 false 0); MLoc true (EEstablished 0 false 0);
+   MLoc false (ESend 0 false 3 10 None); MLoc false EDrain; MOpen false 0 1 1 0;
+   MReq 0 100 [V.C04.Model.EvChunk 1; V.C04.Model.EvPending; V.C04.Model.EvChunk 2];
+   MLoc true (EURespond 0 5 77 true); MResp 0 100 [V.C04.Model.EvPending]].
+Example demo_two_nodes :
+  let cf := mkCfg None 4 16 5000 false in
+  let s := run2 (sys0 cf cf) demo2 in
+  outs false s = [OSent 0; OOpen 0 0; OBind 0 0; OWire 0 3 10; OResp 0 5 77] /\
+  outs true s = [OReq 0 0 3 10; OWireR 0 5 77; OFeed 0 true] /\
+  lks s = [mkLink false 0 0] /\ linked s false 0 = true /\
+  let s' := run2 (sys0 cf cf) (firstn 5 demo2 ++ [MReq 0 3 []; MResp 0 100 []]) in
+  outs false s' = [OSent 0; OOpen 0 0; OBind 0 0; OWire 0 3 10; OFail 0 E_SUB_CLOSED] /\ outs true s' = [].
+Proof. vm_compute. repeat split. Qed.
+
+(* Non-vacuity of the pinned slots: bound 2, two silent inbound substreams of peer 0; an hour
+   passes, the connection of peer 0 is reported closed, peer 1 opens a substream and sends a
+   request: nothing is read, nothing is handed to the user, the two readers are still there. *)
+Example demo_pinned :
+  let cf := mkCfg (Some 2) 4 16 5000 false in
+  let res := run cf (init_pst, init_env)
+                 [EEstablished 0 false 0; EEstablished 1 false 0; EInOpen 0 1 0; EInOpen 0 1 0;
+                  EAdvance 3600000; EClosed 0; EInOpen 1 1 0; EInReq 2 3 7] in
+  length (rdrs (fst (fst res))) = 2%nat /\ snd res = [].
+Proof. vm_compute. split; reflexivity. Qed.
